@@ -754,7 +754,48 @@ def _c13_3_deferring(ctx):
     return out
 
 
+def c13_18(ctx):
+    """the timelock prefix of a leaf: locktime_commands / sequence_commands evaluated on values at every sign-bit and byte-width boundary of the
+    script number encoding (1, 127 | 128, 255 | 256, 32767 | 32768, 0x7fffff | 0x800000, 2^31-1 | 2^31, 2^32-1, relative-time flag values): the
+    first command must be the MINIMAL script number of the value -- with the extra 00 byte when the top bit of the last byte is set, or
+    CHECKLOCKTIMEVERIFY / CHECKSEQUENCEVERIFY read a negative number and no subset can spend its timelocked leaf -- followed by the opcode and DROP"""
+    from sa.cells import Evaluator, Obj, Raised, TaggedInt, Undecided
+
+    def minimal(v):
+        out = bytearray()
+        while v:
+            out.append(v & 0xFF)
+            v >>= 8
+        if out and out[-1] & 0x80:
+            out.append(0)
+        return bytes(out)
+    values = [1, 16, 17, 127, 128, 144, 200, 255, 256, 32767, 32768, 65535, 65536, 0x7FFFFF, 0x800000, 0xFFFFFF, 0x1000000, 2 ** 31 - 1, 2 ** 31, 2 ** 32 - 1, 0x400000 | 1, 0x400000 | 0xFFFF]
+    out = []
+    for spec, cls, op in (("taproot:locktime_commands", "Locktime", 0xB1), ("taproot:sequence_commands", "Sequence", 0xB2)):
+        mod, fn = rl.get(ctx, spec)
+        bad = None
+        try:
+            for v in values:
+                ctx.count("cells")
+                try:
+                    r = Evaluator(ctx.repo).call(spec, [TaggedInt(v, "timelock", cls)])
+                except Raised as x:
+                    bad = "the value %d raises %s" % (v, x.name)
+                    break
+                if not isinstance(r, list) or len(r) != 3 or r[1:] != [op, 0x75] or (r[0] != minimal(v) and not (1 <= v <= 16 and r[0] == 0x50 + v)):
+                    bad = "the value %d gives the commands %s; a leaf must start with the minimal script number %s, opcode %#x, DROP" % (
+                        v, [x.hex() if isinstance(x, bytes) else x for x in r] if isinstance(r, list) else r, minimal(v).hex(), op)
+                    break
+        except Undecided as u:
+            out.append(ctx.err(spec, "timelock prefix not evaluable: %s" % u, fn, mod))
+            continue
+        out.append(ctx.bad(spec, bad, fn, mod, key="timelock-number") if bad else
+                   ctx.ok(spec, "%d values on both sides of every sign-bit / width boundary give the minimal script number, the opcode and DROP" % len(values), fn, mod, key="timelock-number"))
+    return out
+
+
 OBLIGATIONS = [
+    ("C13.18", "CELLS timelock number", c13_18),
     ("C13.14", "CELLS nonce domain", c13_14),
     ("C13.15", "CELLS tree generators", _tree_cells),
     ("C13.17", "CELLS initialise histories", c13_17),
